@@ -288,6 +288,36 @@ struct PanicVal {
 
 // ------------------------------------------------------------------------------- scenario
 
+/// Untracked element of `S` bytes aligned like `A` (refusal grid of C10: every combination of
+/// a few sizes and alignments, in both directions).
+#[repr(C)]
+struct Shape<const K: u8, const S: usize, A> {
+    _a: [A; 0],
+    b: [u8; S],
+}
+impl<const S: usize, A> ElemT for Shape<0, S, A> {
+    const TRACKED: bool = false;
+    fn new(_: u32) -> Self {
+        Shape { _a: [], b: [0; S] }
+    }
+    fn id(&self) -> u32 {
+        self.b.first().copied().unwrap_or(0) as u32
+    }
+}
+impl<const S: usize, A> ElemU for Shape<1, S, A> {
+    const TRACKED: bool = false;
+    fn new(_: u32) -> Self {
+        Shape { _a: [], b: [0; S] }
+    }
+    fn id(&self) -> u32 {
+        0
+    }
+    fn touch(&mut self) {}
+    fn payload(&self) -> u32 {
+        0
+    }
+}
+
 fn converter<T: ElemT, U: ElemU>(
     t: T,
     prev: Option<&mut U>,
@@ -359,12 +389,12 @@ fn converter<T: ElemT, U: ElemU>(
 fn payload_id(p: &Box<dyn Any + Send>) -> (i64, bool) {
     if let Some(v) = p.downcast_ref::<PanicVal>() {
         (v.id as i64, false)
-    } else if let Some(s) = p.downcast_ref::<String>() {
-        (-1, s.contains("size_of") || s.contains("align_of"))
-    } else if let Some(s) = p.downcast_ref::<&'static str>() {
-        (-1, s.contains("size_of") || s.contains("align_of"))
+    } else if p.downcast_ref::<String>().is_some() || p.downcast_ref::<&'static str>().is_some() {
+        // a panic message: raised by the library itself (the converter of this driver only ever
+        // panics with a PanicVal); its wording is not specified and not looked at
+        (-1, true)
     } else {
-        (-2, false)
+        (-2, true)
     }
 }
 
@@ -440,6 +470,91 @@ fn dispatch(sc: &Value, out: &mut Vec<String>) {
         "mm_both" => run::<Elem<0, ()>, Elem<1, Align64>>(sc, out),
         "mm_zst_in" => run::<Zst<0>, Elem<1, ()>>(sc, out),
         "mm_zst_out" => run::<Elem<0, ()>, Zst<1>>(sc, out),
+        // refusal grid: same alignment / other size, same size / other alignment
+        "g_a1_s0_s1" => run::<Shape<0, 0, u8>, Shape<1, 1, u8>>(sc, out),
+        "g_a1_s0_s2" => run::<Shape<0, 0, u8>, Shape<1, 2, u8>>(sc, out),
+        "g_a1_s0_s3" => run::<Shape<0, 0, u8>, Shape<1, 3, u8>>(sc, out),
+        "g_a1_s1_s0" => run::<Shape<0, 1, u8>, Shape<1, 0, u8>>(sc, out),
+        "g_a1_s1_s2" => run::<Shape<0, 1, u8>, Shape<1, 2, u8>>(sc, out),
+        "g_a1_s1_s3" => run::<Shape<0, 1, u8>, Shape<1, 3, u8>>(sc, out),
+        "g_a1_s2_s0" => run::<Shape<0, 2, u8>, Shape<1, 0, u8>>(sc, out),
+        "g_a1_s2_s1" => run::<Shape<0, 2, u8>, Shape<1, 1, u8>>(sc, out),
+        "g_a1_s2_s3" => run::<Shape<0, 2, u8>, Shape<1, 3, u8>>(sc, out),
+        "g_a1_s3_s0" => run::<Shape<0, 3, u8>, Shape<1, 0, u8>>(sc, out),
+        "g_a1_s3_s1" => run::<Shape<0, 3, u8>, Shape<1, 1, u8>>(sc, out),
+        "g_a1_s3_s2" => run::<Shape<0, 3, u8>, Shape<1, 2, u8>>(sc, out),
+        "g_a2_s0_s2" => run::<Shape<0, 0, u16>, Shape<1, 2, u16>>(sc, out),
+        "g_a2_s0_s4" => run::<Shape<0, 0, u16>, Shape<1, 4, u16>>(sc, out),
+        "g_a2_s0_s6" => run::<Shape<0, 0, u16>, Shape<1, 6, u16>>(sc, out),
+        "g_a2_s2_s0" => run::<Shape<0, 2, u16>, Shape<1, 0, u16>>(sc, out),
+        "g_a2_s2_s4" => run::<Shape<0, 2, u16>, Shape<1, 4, u16>>(sc, out),
+        "g_a2_s2_s6" => run::<Shape<0, 2, u16>, Shape<1, 6, u16>>(sc, out),
+        "g_a2_s4_s0" => run::<Shape<0, 4, u16>, Shape<1, 0, u16>>(sc, out),
+        "g_a2_s4_s2" => run::<Shape<0, 4, u16>, Shape<1, 2, u16>>(sc, out),
+        "g_a2_s4_s6" => run::<Shape<0, 4, u16>, Shape<1, 6, u16>>(sc, out),
+        "g_a2_s6_s0" => run::<Shape<0, 6, u16>, Shape<1, 0, u16>>(sc, out),
+        "g_a2_s6_s2" => run::<Shape<0, 6, u16>, Shape<1, 2, u16>>(sc, out),
+        "g_a2_s6_s4" => run::<Shape<0, 6, u16>, Shape<1, 4, u16>>(sc, out),
+        "g_a4_s0_s4" => run::<Shape<0, 0, u32>, Shape<1, 4, u32>>(sc, out),
+        "g_a4_s0_s8" => run::<Shape<0, 0, u32>, Shape<1, 8, u32>>(sc, out),
+        "g_a4_s0_s12" => run::<Shape<0, 0, u32>, Shape<1, 12, u32>>(sc, out),
+        "g_a4_s4_s0" => run::<Shape<0, 4, u32>, Shape<1, 0, u32>>(sc, out),
+        "g_a4_s4_s8" => run::<Shape<0, 4, u32>, Shape<1, 8, u32>>(sc, out),
+        "g_a4_s4_s12" => run::<Shape<0, 4, u32>, Shape<1, 12, u32>>(sc, out),
+        "g_a4_s8_s0" => run::<Shape<0, 8, u32>, Shape<1, 0, u32>>(sc, out),
+        "g_a4_s8_s4" => run::<Shape<0, 8, u32>, Shape<1, 4, u32>>(sc, out),
+        "g_a4_s8_s12" => run::<Shape<0, 8, u32>, Shape<1, 12, u32>>(sc, out),
+        "g_a4_s12_s0" => run::<Shape<0, 12, u32>, Shape<1, 0, u32>>(sc, out),
+        "g_a4_s12_s4" => run::<Shape<0, 12, u32>, Shape<1, 4, u32>>(sc, out),
+        "g_a4_s12_s8" => run::<Shape<0, 12, u32>, Shape<1, 8, u32>>(sc, out),
+        "g_a8_s0_s8" => run::<Shape<0, 0, u64>, Shape<1, 8, u64>>(sc, out),
+        "g_a8_s0_s16" => run::<Shape<0, 0, u64>, Shape<1, 16, u64>>(sc, out),
+        "g_a8_s0_s24" => run::<Shape<0, 0, u64>, Shape<1, 24, u64>>(sc, out),
+        "g_a8_s8_s0" => run::<Shape<0, 8, u64>, Shape<1, 0, u64>>(sc, out),
+        "g_a8_s8_s16" => run::<Shape<0, 8, u64>, Shape<1, 16, u64>>(sc, out),
+        "g_a8_s8_s24" => run::<Shape<0, 8, u64>, Shape<1, 24, u64>>(sc, out),
+        "g_a8_s16_s0" => run::<Shape<0, 16, u64>, Shape<1, 0, u64>>(sc, out),
+        "g_a8_s16_s8" => run::<Shape<0, 16, u64>, Shape<1, 8, u64>>(sc, out),
+        "g_a8_s16_s24" => run::<Shape<0, 16, u64>, Shape<1, 24, u64>>(sc, out),
+        "g_a8_s24_s0" => run::<Shape<0, 24, u64>, Shape<1, 0, u64>>(sc, out),
+        "g_a8_s24_s8" => run::<Shape<0, 24, u64>, Shape<1, 8, u64>>(sc, out),
+        "g_a8_s24_s16" => run::<Shape<0, 24, u64>, Shape<1, 16, u64>>(sc, out),
+        "g_s0_a1_a2" => run::<Shape<0, 0, u8>, Shape<1, 0, u16>>(sc, out),
+        "g_s0_a1_a4" => run::<Shape<0, 0, u8>, Shape<1, 0, u32>>(sc, out),
+        "g_s0_a1_a8" => run::<Shape<0, 0, u8>, Shape<1, 0, u64>>(sc, out),
+        "g_s0_a2_a1" => run::<Shape<0, 0, u16>, Shape<1, 0, u8>>(sc, out),
+        "g_s0_a2_a4" => run::<Shape<0, 0, u16>, Shape<1, 0, u32>>(sc, out),
+        "g_s0_a2_a8" => run::<Shape<0, 0, u16>, Shape<1, 0, u64>>(sc, out),
+        "g_s0_a4_a1" => run::<Shape<0, 0, u32>, Shape<1, 0, u8>>(sc, out),
+        "g_s0_a4_a2" => run::<Shape<0, 0, u32>, Shape<1, 0, u16>>(sc, out),
+        "g_s0_a4_a8" => run::<Shape<0, 0, u32>, Shape<1, 0, u64>>(sc, out),
+        "g_s0_a8_a1" => run::<Shape<0, 0, u64>, Shape<1, 0, u8>>(sc, out),
+        "g_s0_a8_a2" => run::<Shape<0, 0, u64>, Shape<1, 0, u16>>(sc, out),
+        "g_s0_a8_a4" => run::<Shape<0, 0, u64>, Shape<1, 0, u32>>(sc, out),
+        "g_s8_a1_a2" => run::<Shape<0, 8, u8>, Shape<1, 8, u16>>(sc, out),
+        "g_s8_a1_a4" => run::<Shape<0, 8, u8>, Shape<1, 8, u32>>(sc, out),
+        "g_s8_a1_a8" => run::<Shape<0, 8, u8>, Shape<1, 8, u64>>(sc, out),
+        "g_s8_a2_a1" => run::<Shape<0, 8, u16>, Shape<1, 8, u8>>(sc, out),
+        "g_s8_a2_a4" => run::<Shape<0, 8, u16>, Shape<1, 8, u32>>(sc, out),
+        "g_s8_a2_a8" => run::<Shape<0, 8, u16>, Shape<1, 8, u64>>(sc, out),
+        "g_s8_a4_a1" => run::<Shape<0, 8, u32>, Shape<1, 8, u8>>(sc, out),
+        "g_s8_a4_a2" => run::<Shape<0, 8, u32>, Shape<1, 8, u16>>(sc, out),
+        "g_s8_a4_a8" => run::<Shape<0, 8, u32>, Shape<1, 8, u64>>(sc, out),
+        "g_s8_a8_a1" => run::<Shape<0, 8, u64>, Shape<1, 8, u8>>(sc, out),
+        "g_s8_a8_a2" => run::<Shape<0, 8, u64>, Shape<1, 8, u16>>(sc, out),
+        "g_s8_a8_a4" => run::<Shape<0, 8, u64>, Shape<1, 8, u32>>(sc, out),
+        "g_s24_a1_a2" => run::<Shape<0, 24, u8>, Shape<1, 24, u16>>(sc, out),
+        "g_s24_a1_a4" => run::<Shape<0, 24, u8>, Shape<1, 24, u32>>(sc, out),
+        "g_s24_a1_a8" => run::<Shape<0, 24, u8>, Shape<1, 24, u64>>(sc, out),
+        "g_s24_a2_a1" => run::<Shape<0, 24, u16>, Shape<1, 24, u8>>(sc, out),
+        "g_s24_a2_a4" => run::<Shape<0, 24, u16>, Shape<1, 24, u32>>(sc, out),
+        "g_s24_a2_a8" => run::<Shape<0, 24, u16>, Shape<1, 24, u64>>(sc, out),
+        "g_s24_a4_a1" => run::<Shape<0, 24, u32>, Shape<1, 24, u8>>(sc, out),
+        "g_s24_a4_a2" => run::<Shape<0, 24, u32>, Shape<1, 24, u16>>(sc, out),
+        "g_s24_a4_a8" => run::<Shape<0, 24, u32>, Shape<1, 24, u64>>(sc, out),
+        "g_s24_a8_a1" => run::<Shape<0, 24, u64>, Shape<1, 24, u8>>(sc, out),
+        "g_s24_a8_a2" => run::<Shape<0, 24, u64>, Shape<1, 24, u16>>(sc, out),
+        "g_s24_a8_a4" => run::<Shape<0, 24, u64>, Shape<1, 24, u32>>(sc, out),
         other => panic!("unknown pair {}", other),
     }
 }
